@@ -43,3 +43,37 @@ Definition u8_notes (ns : list Z) : Prop := Forall (fun n => 0 <= n < 256) ns.
 Definition wf_op (o : quant_op) : Prop :=
   match o with QAllow ns | QForbid ns => u8_notes ns | QConvert _ => True end.
 Definition wf_ops (ops : list quant_op) : Prop := Forall wf_op ops.
+
+(** ** hysteresis (C09) and the conversion record (C19) *)
+
+(** the f32 window bounds around note [N] exactly as [convert] computes them *)
+Definition stair_of (N : Z) : f32 := fdiv (of_Z N) f_12.
+Definition win_lo (N : Z) : f32 := fsub (stair_of N) HYST.
+Definition win_hi (N : Z) : f32 := fadd (fadd (stair_of N) SEMITONE) HYST.
+
+(** is the previously reported note kept for input [v]? *)
+Definition keeps (q : quant) (v : f32) : bool :=
+  bit_allowed (q_allowed q) (note_new (c_note (q_cached q) mod 12)) && in_window (q_cached q) v.
+
+(** the note numbers reported by a sequence of conversions *)
+Fixpoint convert_seq (q : quant) (vs : list f32) : list Z :=
+  match vs with
+  | [] => []
+  | v :: rest => let '(q', c) := convert q v in c_note c :: convert_seq q' rest
+  end.
+
+Fixpoint nondecreasing (l : list Z) : Prop :=
+  match l with
+  | a :: ((b :: _) as rest) => a <= b /\ nondecreasing rest
+  | _ => True
+  end.
+
+Fixpoint fle_sorted (l : list f32) : Prop :=
+  match l with
+  | a :: ((b :: _) as rest) => fle a b = true /\ fle_sorted rest
+  | _ => True
+  end.
+
+(** a cached conversion is either the initial one or a real one with stairstep = note / 12 *)
+Definition cached_ok (c : conv) : Prop :=
+  c = conv_new \/ (0 <= c_note c <= 131 /\ c_stair c = stair_of (c_note c)).
